@@ -7,3 +7,711 @@ Proof.
   - intros [y [Hy E]]. apply Z.eqb_eq in E. subst. exact Hy.
   - intros H. exists x. split; [exact H|apply Z.eqb_refl].
 Qed.
+
+Lemma lenZ_cons {A} (a : A) l : lenZ (a :: l) = 1 + lenZ l.
+Proof. unfold lenZ. cbn [length]. lia. Qed.
+
+Lemma lenZ_nonneg {A} (l : list A) : 0 <= lenZ l.
+Proof. unfold lenZ. lia. Qed.
+
+(* ---- the selection predicate -------------------------------------------------- *)
+
+Definition sel_pred (inreg : region -> variant -> bool) (reg : option region) (V : option (list Z))
+  (x : vrec) : bool :=
+  match reg with None => true | Some r => inreg r (fst x) end
+  && match V with None => true | Some V' => memZ (v_id (fst x)) V' end.
+
+Lemma select_eq inreg q recs :
+  select inreg q recs = filter (sel_pred inreg (q_region q) (q_ids q)) recs.
+Proof. reflexivity. Qed.
+
+Lemma filter_filter {A} (f g : A -> bool) l :
+  filter f (filter g l) = filter (fun x => g x && f x) l.
+Proof.
+  induction l as [|a r IH]; [reflexivity|]. cbn. destruct (g a); cbn; [destruct (f a)|]; rewrite IH; reflexivity.
+Qed.
+
+Lemma filter_length_le {A} (f : A -> bool) l : (length (filter f l) <= length l)%nat.
+Proof. induction l as [|a r IH]; cbn; [lia|]. destruct (f a); cbn; lia. Qed.
+
+Definition ids_of (recs : list vrec) : list Z := map (fun x : vrec => v_id (fst x)) recs.
+
+Lemma NoDup_ids_filter (g : vrec -> bool) recs : NoDup (ids_of recs) -> NoDup (ids_of (filter g recs)).
+Proof.
+  unfold ids_of. induction recs as [|a r IH]; intros H; cbn; [constructor|].
+  inversion H as [|? ? Hn Hr]; subst. destruct (g a); [|apply IH; exact Hr].
+  cbn. constructor; [|apply IH; exact Hr].
+  intro Hin. apply Hn. apply in_map_iff in Hin. destruct Hin as [x [Ex Hx]].
+  apply filter_In in Hx. apply in_map_iff. exists x. tauto.
+Qed.
+
+(* with unique IDs in the file and a set of IDs, at most |V| records match *)
+Lemma matches_le V recs : NoDup (ids_of recs) -> NoDup V ->
+  lenZ (filter (fun x : vrec => memZ (v_id (fst x)) V) recs) <= lenZ V.
+Proof.
+  intros Hr HV. unfold lenZ. apply inj_le.
+  rewrite <- (map_length (fun x : vrec => v_id (fst x))).
+  apply NoDup_incl_length.
+  - apply (NoDup_ids_filter _ _ Hr).
+  - intros i Hi. apply in_map_iff in Hi. destruct Hi as [x [<- Hx]].
+    apply filter_In in Hx. apply memZ_In. tauto.
+Qed.
+
+(* ---- VCF: the ID filter's early exit never loses a record --------------------- *)
+
+Lemma id_scan_filter V : forall recs seen,
+  seen + lenZ (filter (fun x : vrec => memZ (v_id (fst x)) V) recs) <= lenZ V ->
+  id_scan V seen recs = filter (fun x : vrec => memZ (v_id (fst x)) V) recs.
+Proof.
+  induction recs as [|r rs IH]; intros seen H; [reflexivity|].
+  cbn [id_scan filter] in *. destruct (memZ (v_id (fst r)) V) eqn:E.
+  - rewrite lenZ_cons in H. rewrite IH by lia. reflexivity.
+  - destruct (lenZ V <=? seen) eqn:E2.
+    + apply Z.leb_le in E2. symmetry. apply lenZ_0_nil.
+      pose proof (lenZ_nonneg (filter (fun x : vrec => memZ (v_id (fst x)) V) rs)). lia.
+    + apply IH. exact H.
+Qed.
+
+Lemma ids_of_combine (vs : list variant) (rows : list (list call)) :
+  length rows = length vs -> ids_of (combine vs rows) = map v_id vs.
+Proof.
+  revert rows. induction vs as [|v r IH]; intros [|b rb] H; cbn in *; try discriminate; try reflexivity.
+  rewrite IH by lia. reflexivity.
+Qed.
+
+Lemma vcf_records_select c q :
+  NoDup (map v_id (g_variants c)) -> length (g_rows c) = length (g_variants c) ->
+  (forall V, q_ids q = Some V -> NoDup V) ->
+  vcf_records c q = select in_region_vcf q (combine (g_variants c) (g_rows c)).
+Proof.
+  intros Hnd Hlen HV. unfold vcf_records. rewrite select_eq. unfold sel_pred.
+  set (recs := combine (g_variants c) (g_rows c)).
+  assert (Hids : NoDup (ids_of recs)).
+  { unfold recs. rewrite ids_of_combine by exact Hlen. exact Hnd. }
+  destruct (q_ids q) as [V|] eqn:EV.
+  - specialize (HV V eq_refl).
+    destruct (q_region q) as [r|].
+    + rewrite id_scan_filter.
+      * rewrite filter_filter. reflexivity.
+      * cbn. apply matches_le; [apply NoDup_ids_filter; exact Hids|exact HV].
+    + rewrite id_scan_filter; [reflexivity|]. cbn. apply matches_le; assumption.
+  - destruct (q_region q) as [r|].
+    + apply filter_ext. intros x. rewrite andb_true_r. reflexivity.
+    + symmetry. clear. induction recs as [|a r IH]; [reflexivity|]. cbn [filter andb]. f_equal. exact IH.
+Qed.
+
+(* ---- PGEN: _iterate_variants is the same filter (no uniqueness needed) -------- *)
+
+Lemma filter_empty_ids inreg reg recs : filter (sel_pred inreg reg (Some [])) recs = [].
+Proof.
+  induction recs as [|a r IH]; [reflexivity|]. cbn [filter]. unfold sel_pred at 1. cbn [memZ existsb].
+  rewrite andb_false_r. exact IH.
+Qed.
+
+Lemma pvar_scan_select reg V recs :
+  pvar_scan reg V recs = filter (sel_pred in_region_pgen reg V) recs.
+Proof.
+  induction recs as [|r rs IH]; [reflexivity|]. cbn [pvar_scan filter]. unfold sel_pred at 1.
+  destruct reg as [rg|].
+  - destruct (in_region_pgen rg (fst r)); cbn [negb andb]; [|exact IH].
+    destruct V as [V'|]; [|rewrite IH; reflexivity].
+    destruct (memZ (v_id (fst r)) V') eqn:E; [rewrite IH; reflexivity|].
+    destruct (lenZ V' <=? 0) eqn:E0; [|exact IH].
+    apply Z.leb_le in E0. pose proof (lenZ_nonneg V').
+    rewrite (lenZ_0_nil V') by lia. symmetry. apply filter_empty_ids.
+  - cbn [andb]. destruct V as [V'|]; [|rewrite IH; reflexivity].
+    destruct (memZ (v_id (fst r)) V') eqn:E; [rewrite IH; reflexivity|].
+    destruct (lenZ V' <=? 0) eqn:E0; [|exact IH].
+    apply Z.leb_le in E0. pose proof (lenZ_nonneg V').
+    rewrite (lenZ_0_nil V') by lia. symmetry. apply filter_empty_ids.
+Qed.
+
+(* ---- what a restricted read returns ------------------------------------------- *)
+
+Definition wf_content (c : geno) : Prop :=
+  length (g_rows c) = length (g_variants c)
+  /\ Forall (fun r : list call => length r = length (g_samples c)) (g_rows c)
+  /\ NoDup (map v_id (g_variants c)).
+
+Definition wf_query (q : query) : Prop := forall V, q_ids q = Some V -> NoDup V.
+
+(* max_variants is ignored when an ID set is given *)
+Definition take_q {A} (q : query) (l : list A) : list A :=
+  match q_ids q with Some _ => l | None => take (q_max q) l end.
+
+(* the object Genotypes.read builds from the selected samples and records *)
+Definition vcf_result (m : list bool) (samples' : list Z) (recs : list vrec) : geno :=
+  let n := lenZ samples' in
+  let p := lenZ recs in
+  if (n =? 0) || (p =? 0) then mkg samples' (map fst recs) [] [0; 0; 0]
+  else mkg samples' (map fst recs) (map (fun x : vrec => mask m (snd x)) recs) [n; p; 3].
+
+Lemma take_all {A} k (l : list A) : lenZ l <= k -> take (Some k) l = l.
+Proof. intros H. unfold take. apply firstn_all2. unfold lenZ in H. lia. Qed.
+
+Lemma sel_le inreg reg V recs : NoDup (ids_of recs) -> NoDup V ->
+  lenZ (filter (sel_pred inreg reg (Some V)) recs) <= lenZ V.
+Proof.
+  intros Hr HV.
+  assert (E : filter (sel_pred inreg reg (Some V)) recs
+              = filter (fun x : vrec => memZ (v_id (fst x)) V)
+                       (filter (fun x : vrec => match reg with None => true | Some r => inreg r (fst x) end) recs)).
+  { rewrite filter_filter. reflexivity. }
+  rewrite E. apply matches_le; [apply NoDup_ids_filter; exact Hr|exact HV].
+Qed.
+
+Lemma take_q_map {A B} (F : A -> B) q l : take_q q (map F l) = map F (take_q q l).
+Proof.
+  unfold take_q, take. destruct (q_ids q); [reflexivity|]. destruct (q_max q); [|reflexivity].
+  apply firstn_map.
+Qed.
+
+Lemma vcf_read_spec c q :
+  wf_content c -> wf_query q ->
+  let m := keep_mask (q_samples q) (g_samples c) in
+  let samples' := mask m (g_samples c) in
+  let sel := select in_region_vcf q (combine (g_variants c) (g_rows c)) in
+  samples' <> [] \/ sel = [] ->
+  vcf_read_q c q = Ok (vcf_result m samples' (take_q q sel))
+  /\ vcf_iter_q c q = Ok (samples', map (fun r : vrec => (fst r, mask m (snd r))) sel).
+Proof.
+  intros [Hlen [Hrows Hnd]] Hq m samples' sel Hne.
+  assert (Hit : vcf_iter_q c q = Ok (samples', map (fun r : vrec => (fst r, mask m (snd r))) sel)).
+  { unfold vcf_iter_q. rewrite (vcf_records_select c q Hnd Hlen Hq). fold m. fold samples'. fold sel.
+    destruct Hne as [Hne| ->].
+    - destruct samples'; [congruence|]. reflexivity.
+    - rewrite andb_false_r. reflexivity. }
+  split; [|exact Hit].
+  unfold vcf_read_q. rewrite Hit. cbn [bind].
+  set (F := fun r : vrec => (fst r, mask m (snd r))).
+  set (G := fun recs' : list (variant * list call) =>
+     if (lenZ samples' =? 0) || (lenZ recs' =? 0)
+     then Ok (mkg samples' (map fst recs') [] [0; 0; 0])
+     else Ok (mkg samples' (map fst recs') (map snd recs') [lenZ samples'; lenZ recs'; 3])).
+  set (mv := match q_ids q with Some V => Some (lenZ V) | None => q_max q end).
+  change (G (take mv (map F sel)) = Ok (vcf_result m samples' (take_q q sel))).
+  assert (Etake : take mv (map F sel) = map F (take_q q sel)).
+  { unfold take_q, mv. destruct (q_ids q) as [V|] eqn:EV.
+    - rewrite take_all; [reflexivity|]. unfold lenZ. rewrite map_length. fold (lenZ sel).
+      unfold sel. rewrite select_eq, EV. apply sel_le; [|apply Hq; exact EV].
+      rewrite ids_of_combine by exact Hlen. exact Hnd.
+    - unfold take. destruct (q_max q); [apply firstn_map|reflexivity]. }
+  rewrite Etake. unfold G, vcf_result.
+  assert (El : lenZ (map F (take_q q sel)) = lenZ (take_q q sel)) by (unfold lenZ; rewrite map_length; reflexivity).
+  rewrite El. rewrite !map_map. cbn [fst snd F].
+  destruct ((lenZ samples' =? 0) || (lenZ (take_q q sel) =? 0)); reflexivity.
+Qed.
+
+(* ---- PGEN ---------------------------------------------------------------------- *)
+
+Definition pgen_result (pload : scall -> scall) (m : list bool) (samples' : list Z) (recs : list vrec) : geno :=
+  mkg samples' (map fst recs)
+      (map (fun x : vrec => map (load_call pload) (to_stored (mask m (snd x)))) recs)
+      [lenZ samples'; lenZ recs; 3].
+
+Lemma firstn_min_len {A} (k p : Z) (l : list A) : lenZ l <= p ->
+  firstn (Z.to_nat (Z.min k p)) l = firstn (Z.to_nat k) l.
+Proof.
+  intros H. destruct (Z.le_ge_cases k p) as [Hk|Hk].
+  - rewrite Z.min_l by exact Hk. reflexivity.
+  - rewrite Z.min_r by exact Hk. unfold lenZ in H.
+    rewrite !firstn_all2 by lia. reflexivity.
+Qed.
+
+Lemma is_nil_false {A} (l : list A) : l <> [] -> is_nil l = false.
+Proof. destruct l; [congruence|reflexivity]. Qed.
+
+Lemma lenZ_nonzero {A} (l : list A) : l <> [] -> (lenZ l =? 0) = false.
+Proof. destruct l; [congruence|]. intros _. rewrite lenZ_cons. apply Z.eqb_neq. pose proof (lenZ_nonneg l). lia. Qed.
+
+Lemma pgen_read_spec pload c q chunk :
+  wf_content c -> wf_query q -> chunk_dom chunk ->
+  let m := keep_mask (q_samples q) (g_samples c) in
+  let samples' := mask m (g_samples c) in
+  let sel := select in_region_pgen q (combine (g_variants c) (g_rows c)) in
+  samples' <> [] ->
+  pgen_read_q pload false chunk c q = Ok (pgen_result pload m samples' (take_q q sel))
+  /\ pgen_iter_q pload false c q
+     = Ok (samples', map (fun r : vrec => (fst r, map (load_call pload) (to_stored (mask m (snd r))))) sel).
+Proof.
+  intros [Hlen [Hrows Hnd]] Hq Hc m samples' sel Hs.
+  assert (Erecs : pgen_records c q = sel).
+  { unfold pgen_records. rewrite pvar_scan_select. reflexivity. }
+  assert (Hcase : g_variants c = [] \/ g_variants c <> []).
+  { destruct (g_variants c); [left; reflexivity|right; discriminate]. }
+  destruct Hcase as [Hv0|Hv].
+  - (* a file without variants *)
+    assert (Esel : sel = []) by (unfold sel; rewrite Hv0; reflexivity).
+    assert (Et : take_q q (@nil vrec) = []).
+    { unfold take_q, take. destruct (q_ids q); [reflexivity|]. destruct (q_max q); [apply firstn_nil|reflexivity]. }
+    split.
+    + unfold pgen_read_q. rewrite Hv0. cbn [lenZ length Z.of_nat Z.eqb]. rewrite Esel, Et. reflexivity.
+    + unfold pgen_iter_q. rewrite Hv0. cbn [is_nil]. rewrite Esel. reflexivity.
+  - split.
+    + unfold pgen_read_q. fold m. fold samples'.
+      rewrite (lenZ_nonzero _ Hv), (lenZ_nonzero _ Hs). rewrite Erecs.
+      set (mv := match q_ids q with
+                 | Some V => lenZ V
+                 | None => match q_max q with None => lenZ (g_variants c) | Some k => Z.min k (lenZ (g_variants c)) end
+                 end).
+      assert (Hsel_p : lenZ sel <= lenZ (g_variants c)).
+      { unfold sel. rewrite select_eq. unfold lenZ. apply inj_le.
+        apply (Nat.le_trans _ (length (combine (g_variants c) (g_rows c)))); [apply filter_length_le|].
+        rewrite combine_length. apply Nat.le_min_l. }
+      assert (Etake : firstn (Z.to_nat mv) sel = take_q q sel).
+      { unfold take_q, mv. destruct (q_ids q) as [V|] eqn:EV.
+        - apply firstn_all2.
+          assert (lenZ sel <= lenZ V).
+          { unfold sel. rewrite select_eq, EV. apply sel_le; [|apply Hq; exact EV].
+            rewrite ids_of_combine by exact Hlen. exact Hnd. }
+          unfold lenZ in *. lia.
+        - unfold take. destruct (q_max q) as [k|].
+          + apply firstn_min_len. exact Hsel_p.
+          + apply firstn_all2. unfold lenZ in *. lia. }
+      rewrite Etake. rewrite load_chunks_irrelevant by exact Hc. cbn [bind].
+      unfold pgen_result. rewrite map_map. reflexivity.
+    + unfold pgen_iter_q. fold m. fold samples'. rewrite (is_nil_false _ Hv), (is_nil_false _ Hs), Erecs.
+      reflexivity.
+Qed.
+
+(* ---- "reading everything" ------------------------------------------------------ *)
+
+Lemma mask_all_true {A} (s : list Z) (l : list A) :
+  length l = length s -> mask (keep_mask None s) l = l.
+Proof.
+  revert l. induction s as [|x r IH]; intros [|a l] H; cbn in *; try discriminate; try reflexivity.
+  rewrite IH by lia. reflexivity.
+Qed.
+
+Lemma select_all inreg recs : select inreg q_all recs = recs.
+Proof. rewrite select_eq. cbn. induction recs as [|a r IH]; [reflexivity|]. cbn. rewrite IH. reflexivity. Qed.
+
+Lemma map_mask_rows (s : list Z) (vs : list variant) (rows : list (list call)) :
+  Forall (fun r : list call => length r = length s) rows ->
+  map (fun x : vrec => mask (keep_mask None s) (snd x)) (combine vs rows) = map snd (combine vs rows).
+Proof.
+  intros H. apply map_ext_in. intros [v r] Hin. cbn [snd]. apply mask_all_true.
+  rewrite Forall_forall in H. apply H. eapply in_combine_r; eauto.
+Qed.
+
+Lemma vcf_full_read c : wf_content c -> g_samples c <> [] -> g_variants c <> [] ->
+  vcf_read_q c q_all
+  = Ok (mkg (g_samples c) (g_variants c) (g_rows c) [lenZ (g_samples c); lenZ (g_variants c); 3]).
+Proof.
+  intros Hwf Hs Hv. destruct (vcf_read_spec c q_all Hwf) as [E _].
+  - intros V H. discriminate.
+  - left. rewrite mask_all_true by reflexivity. exact Hs.
+  - rewrite E. destruct Hwf as [Hlen [Hrows _]]. f_equal.
+    rewrite mask_all_true by reflexivity. rewrite select_all. unfold take_q, take. cbn [q_all q_ids q_max].
+    unfold vcf_result.
+    assert (El : lenZ (combine (g_variants c) (g_rows c)) = lenZ (g_variants c)).
+    { unfold lenZ. rewrite combine_length. lia. }
+    rewrite El, (lenZ_nonzero _ Hs), (lenZ_nonzero _ Hv). cbn [orb].
+    rewrite (map_mask_rows _ _ _ Hrows), map_combine_fst by exact Hlen.
+    rewrite (map_combine_snd (fun r => r)) by exact Hlen. rewrite map_id. reflexivity.
+Qed.
+
+Lemma pgen_full_read pload c chunk : wf_content c -> chunk_dom chunk ->
+  g_samples c <> [] ->
+  pgen_read_q pload false chunk c q_all
+  = Ok (mkg (g_samples c) (g_variants c)
+            (map (fun r => map (load_call pload) (to_stored r)) (g_rows c))
+            [lenZ (g_samples c); lenZ (g_variants c); 3]).
+Proof.
+  intros Hwf Hc Hs. destruct (pgen_read_spec pload c q_all chunk Hwf) as [E _]; try assumption.
+  - intros V H. discriminate.
+  - rewrite mask_all_true by reflexivity. exact Hs.
+  - rewrite E. destruct Hwf as [Hlen [Hrows _]]. f_equal.
+    rewrite mask_all_true by reflexivity. rewrite select_all. unfold take_q, take. cbn [q_all q_ids q_max].
+    unfold pgen_result.
+    assert (El : lenZ (combine (g_variants c) (g_rows c)) = lenZ (g_variants c)).
+    { unfold lenZ. rewrite combine_length. lia. }
+    rewrite El, map_combine_fst by exact Hlen. f_equal.
+    rewrite <- (map_combine_snd (fun r => map (load_call pload) (to_stored r)) (g_variants c) (g_rows c) Hlen).
+    apply map_ext_in. intros [v r] Hin. cbn [snd]. rewrite mask_all_true; [reflexivity|].
+    rewrite Forall_forall in Hrows. apply Hrows. eapply in_combine_r; eauto.
+Qed.
+
+(* ---- restricted read = full read, then filtered in file order ------------------ *)
+
+Definition restrict_vcf (q : query) (full : geno) : geno :=
+  let m := keep_mask (q_samples q) (g_samples full) in
+  vcf_result m (mask m (g_samples full))
+             (take_q q (select in_region_vcf q (combine (g_variants full) (g_rows full)))).
+
+Definition restrict_pgen (q : query) (full : geno) : geno :=
+  let m := keep_mask (q_samples q) (g_samples full) in
+  let sel := take_q q (select in_region_pgen q (combine (g_variants full) (g_rows full))) in
+  mkg (mask m (g_samples full)) (map fst sel) (map (fun x : vrec => mask m (snd x)) sel)
+      [lenZ (mask m (g_samples full)); lenZ sel; 3].
+
+Definition selected_samples (c : geno) (q : query) : list Z :=
+  mask (keep_mask (q_samples q) (g_samples c)) (g_samples c).
+
+Lemma read_restricted_eq_subset_vcf c q :
+  wf_content c -> wf_query q -> g_samples c <> [] -> g_variants c <> [] ->
+  selected_samples c q <> [] \/ select in_region_vcf q (combine (g_variants c) (g_rows c)) = [] ->
+  exists full, vcf_read_q c q_all = Ok full /\ vcf_read_q c q = Ok (restrict_vcf q full).
+Proof.
+  intros Hwf Hq Hs Hv Hne. eexists. split; [apply vcf_full_read; assumption|].
+  destruct (vcf_read_spec c q Hwf Hq Hne) as [E _]. exact E.
+Qed.
+
+Lemma mask_map {A B} (f : A -> B) m l : mask m (map f l) = map f (mask m l).
+Proof.
+  revert l. induction m as [|b m IH]; intros [|a l]; cbn; try reflexivity.
+  destruct b; cbn; rewrite IH; reflexivity.
+Qed.
+
+Lemma filter_combine_map {B C} (P : variant -> bool) (H : B -> C) (vs : list variant) (rows : list B) :
+  filter (fun x : variant * C => P (fst x)) (combine vs (map H rows))
+  = map (fun x : variant * B => (fst x, H (snd x))) (filter (fun x : variant * B => P (fst x)) (combine vs rows)).
+Proof.
+  revert rows. induction vs as [|v r IH]; intros [|b rb]; cbn; try reflexivity.
+  destruct (P v); cbn; rewrite IH; reflexivity.
+Qed.
+
+Lemma select_map_rows inreg q (H : list call -> list call) vs rows :
+  select inreg q (combine vs (map H rows))
+  = map (fun x : vrec => (fst x, H (snd x))) (select inreg q (combine vs rows)).
+Proof.
+  rewrite !select_eq.
+  apply (filter_combine_map
+           (fun v => match q_region q with None => true | Some r => inreg r v end
+                     && match q_ids q with None => true | Some V' => memZ (v_id v) V' end) H).
+Qed.
+
+Lemma read_restricted_eq_subset_pgen pload c q chunk :
+  wf_content c -> wf_query q -> chunk_dom chunk -> g_samples c <> [] ->
+  selected_samples c q <> [] ->
+  exists full, pgen_read_q pload false chunk c q_all = Ok full
+            /\ pgen_read_q pload false chunk c q = Ok (restrict_pgen q full).
+Proof.
+  intros Hwf Hq Hc Hs Hne. eexists. split; [apply pgen_full_read; assumption|].
+  destruct (pgen_read_spec pload c q chunk Hwf Hq Hc Hne) as [E _]. rewrite E. f_equal.
+  unfold restrict_pgen, pgen_result. cbn [g_samples g_variants g_rows].
+  rewrite select_map_rows, take_q_map, !map_map. cbn [fst snd].
+  f_equal.
+  - apply map_ext. intros [v r]. cbn [snd]. unfold to_stored. rewrite !mask_map. reflexivity.
+  - unfold lenZ. rewrite map_length. reflexivity.
+Qed.
+
+(* an empty match is an empty result, never an error (fixed model); the pinned
+   PGEN reader raised ValueError from range(0, 0, 0) *)
+Definition c_one : geno := mkg [0] [mkvar 1 2 29 [3; 4] 1] [[(0, 1, 1)]] [1; 1; 3].
+Definition q_noids : query := mkq None None (Some []) None.
+
+Example legacy_pgen_empty_refuted :
+  pgen_read_q pload_std true None c_one q_noids = Err E_Value
+  /\ pgen_read_q pload_std false None c_one q_noids = Ok (mkg [0] [] [] [1; 0; 3])
+  /\ vcf_read_q c_one q_noids = Ok (mkg [0] [] [] [0; 0; 0]).
+Proof. vm_compute. repeat split. Qed.
+
+(* a file without variants: the bulk read is empty; the pinned PGEN iterator raised *)
+Definition c_empty : geno := mkg [0; 1] [] [] [2; 0; 3].
+
+Example legacy_pgen_iter_empty_refuted :
+  pgen_iter_q pload_std true c_empty q_all = Err E_Runtime
+  /\ pgen_iter_q pload_std false c_empty q_all = Ok ([0; 1], [])
+  /\ vcf_iter_q c_empty q_all = Ok ([0; 1], [])
+  /\ pgen_read_q pload_std true None c_empty q_all = Ok (mkg [0; 1] [] [] [2; 0; 3]).
+Proof. vm_compute. repeat split. Qed.
+
+(* ---- the iterator yields the records of the bulk read --------------------------- *)
+
+Lemma iter_eq_read_vcf c q :
+  wf_content c -> wf_query q ->
+  selected_samples c q <> [] \/ select in_region_vcf q (combine (g_variants c) (g_rows c)) = [] ->
+  exists samples' recs g,
+    vcf_iter_q c q = Ok (samples', recs) /\ vcf_read_q c q = Ok g
+    /\ g_samples g = samples' /\ g_variants g = map fst (take_q q recs)
+    /\ (g_rows g = map snd (take_q q recs) \/ (g_rows g = [] /\ (samples' = [] \/ take_q q recs = []))).
+Proof.
+  intros Hwf Hq Hne. destruct (vcf_read_spec c q Hwf Hq Hne) as [E1 E2].
+  do 3 eexists. split; [exact E2|]. split; [exact E1|].
+  rewrite take_q_map, !map_map. cbn [fst snd]. unfold vcf_result.
+  destruct (lenZ (mask (keep_mask (q_samples q) (g_samples c)) (g_samples c)) =? 0) eqn:En.
+  - cbn [orb g_samples g_variants g_rows]. split; [reflexivity|]. split; [reflexivity|].
+    right. split; [reflexivity|]. left. apply lenZ_0_nil. apply Z.eqb_eq. exact En.
+  - cbn [orb].
+    destruct (lenZ (take_q q (select in_region_vcf q (combine (g_variants c) (g_rows c)))) =? 0) eqn:Ep;
+      cbn [g_samples g_variants g_rows]; (split; [reflexivity|]); (split; [reflexivity|]).
+    + right. split; [reflexivity|]. right. apply Z.eqb_eq in Ep. apply lenZ_0_nil in Ep. rewrite Ep. reflexivity.
+    + left. reflexivity.
+Qed.
+
+Lemma iter_eq_read_pgen pload c q chunk :
+  wf_content c -> wf_query q -> chunk_dom chunk -> selected_samples c q <> [] ->
+  exists samples' recs g,
+    pgen_iter_q pload false c q = Ok (samples', recs) /\ pgen_read_q pload false chunk c q = Ok g
+    /\ g_samples g = samples' /\ g_variants g = map fst (take_q q recs)
+    /\ g_rows g = map snd (take_q q recs).
+Proof.
+  intros Hwf Hq Hc Hne. destruct (pgen_read_spec pload c q chunk Hwf Hq Hc Hne) as [E1 E2].
+  do 3 eexists. split; [exact E2|]. split; [exact E1|].
+  rewrite take_q_map, !map_map. cbn [fst snd]. unfold pgen_result. cbn [g_samples g_variants g_rows].
+  repeat split.
+Qed.
+
+(* ---- max_variants returns a prefix ------------------------------------------------ *)
+
+Definition q_nomax (q : query) : query := mkq (q_region q) (q_samples q) (q_ids q) None.
+
+Lemma max_variants_prefix_pgen pload c q chunk :
+  wf_content c -> wf_query q -> chunk_dom chunk -> selected_samples c q <> [] ->
+  q_ids q = None ->
+  exists g g0, pgen_read_q pload false chunk c q = Ok g
+    /\ pgen_read_q pload false chunk c (q_nomax q) = Ok g0
+    /\ g_samples g = g_samples g0
+    /\ g_variants g = take (q_max q) (g_variants g0)
+    /\ g_rows g = take (q_max q) (g_rows g0).
+Proof.
+  intros Hwf Hq Hc Hne Hid.
+  destruct (pgen_read_spec pload c q chunk Hwf Hq Hc Hne) as [E1 _].
+  assert (Hq0 : wf_query (q_nomax q)) by (intros V H; apply Hq; exact H).
+  destruct (pgen_read_spec pload c (q_nomax q) chunk Hwf Hq0 Hc Hne) as [E0 _].
+  do 2 eexists. split; [exact E1|]. split; [exact E0|].
+  unfold pgen_result, take_q. cbn [q_nomax q_ids q_max q_region q_samples g_samples g_variants g_rows].
+  rewrite Hid. unfold take. destruct (q_max q) as [k|]; [|repeat split].
+  rewrite !firstn_map. repeat split.
+Qed.
+
+Lemma max_variants_prefix_vcf c q :
+  wf_content c -> wf_query q -> selected_samples c q <> [] -> q_ids q = None ->
+  exists g g0, vcf_read_q c q = Ok g /\ vcf_read_q c (q_nomax q) = Ok g0
+    /\ g_samples g = g_samples g0
+    /\ g_variants g = take (q_max q) (g_variants g0)
+    /\ (g_rows g = take (q_max q) (g_rows g0) \/ g_rows g = []).
+Proof.
+  intros Hwf Hq Hne Hid.
+  destruct (vcf_read_spec c q Hwf Hq (or_introl Hne)) as [E1 _].
+  assert (Hq0 : wf_query (q_nomax q)) by (intros V H; apply Hq; exact H).
+  destruct (vcf_read_spec c (q_nomax q) Hwf Hq0 (or_introl Hne)) as [E0 _].
+  do 2 eexists. split; [exact E1|]. split; [exact E0|].
+  unfold take_q. cbn [q_nomax q_ids q_max q_region q_samples]. rewrite Hid.
+  change (select in_region_vcf (q_nomax q)) with (select in_region_vcf q).
+  set (sel := select in_region_vcf q (combine (g_variants c) (g_rows c))).
+  set (m := keep_mask (q_samples q) (g_samples c)).
+  unfold vcf_result. unfold selected_samples in Hne. fold m in Hne.
+  rewrite (lenZ_nonzero _ Hne). cbn [orb].
+  destruct (lenZ (take (q_max q) sel) =? 0) eqn:E1'; destruct (lenZ (take None sel) =? 0) eqn:E2';
+    cbn [g_samples g_variants g_rows]; unfold take in *.
+  - apply Z.eqb_eq, lenZ_0_nil in E2'. rewrite E2'. destruct (q_max q); [rewrite !firstn_nil|]; cbn [map]; auto.
+  - split; [reflexivity|]. split; [|right; reflexivity].
+    destruct (q_max q); [rewrite firstn_map|]; reflexivity.
+  - apply Z.eqb_eq, lenZ_0_nil in E2'. rewrite E2' in *. destruct (q_max q); [rewrite firstn_nil in E1'|]; discriminate.
+  - split; [reflexivity|]. destruct (q_max q); [rewrite !firstn_map|]; auto.
+Qed.
+
+(* ---- subset(): requested order, unknown names dropped ------------------------- *)
+
+Lemma index_of_Some x l : forall i, index_of x l = Some i -> nth i l 0 = x /\ In x l.
+Proof.
+  induction l as [|y r IH]; intros i H; cbn in H; [discriminate|].
+  destruct (x =? y) eqn:E.
+  - apply Z.eqb_eq in E. inversion H; subst. cbn. auto.
+  - destruct (index_of x r) as [j|]; [|discriminate]. cbn in H. inversion H; subst.
+    destruct (IH j eq_refl) as [H1 H2]. cbn. auto.
+Qed.
+
+Lemma index_of_None x l : index_of x l = None -> memZ x l = false.
+Proof.
+  induction l as [|y r IH]; intros H; cbn in *; [reflexivity|].
+  destruct (x =? y); [discriminate|]. destruct (index_of x r); [discriminate|]. cbn. apply IH. reflexivity.
+Qed.
+
+Lemma pick_positions req have :
+  pick 0 (positions req have) have = filter (fun x => memZ x have) req.
+Proof.
+  induction req as [|x r IH]; [reflexivity|]. cbn [positions filter].
+  destruct (index_of x have) as [i|] eqn:E.
+  - destruct (index_of_Some _ _ _ E) as [Hn Hin]. rewrite (proj2 (memZ_In x have) Hin).
+    unfold pick in *. cbn [map]. rewrite Hn, IH. reflexivity.
+  - rewrite (index_of_None _ _ E). exact IH.
+Qed.
+
+Lemma pick_map {A B} (f : A -> B) d idx l : map f (pick d idx l) = pick (f d) idx (map f l).
+Proof.
+  unfold pick. rewrite map_map. apply map_ext. intros i. symmetry. apply map_nth.
+Qed.
+
+Lemma subset_order g S V g' : subset g S V = Ok g' ->
+  g_samples g' = match S with
+                 | None => g_samples g
+                 | Some S' => filter (fun s => memZ s (g_samples g)) S' end
+  /\ map v_id (g_variants g') = match V with
+                                | None => map v_id (g_variants g)
+                                | Some V' => filter (fun v => memZ v (map v_id (g_variants g))) V' end.
+Proof.
+  unfold subset.
+  destruct (match S with Some _ => negb (nodupb (g_samples g)) | None => false end); [discriminate|].
+  destruct (match V with Some _ => negb (nodupb (map v_id (g_variants g))) | None => false end); [discriminate|].
+  destruct S as [S'|], V as [V'|]; intros H; inversion H; subst; cbn [g_samples g_variants]; split;
+    try reflexivity; try apply pick_positions.
+  - rewrite pick_map. apply pick_positions.
+  - rewrite pick_map. apply pick_positions.
+Qed.
+
+(* subset() fails only on duplicate names of the kind that is being subset *)
+Lemma subset_total g S V :
+  nodupb (g_samples g) = true -> nodupb (map v_id (g_variants g)) = true ->
+  exists g', subset g S V = Ok g'.
+Proof.
+  intros H1 H2. unfold subset. rewrite H1, H2. cbn [negb].
+  destruct S, V; cbn; eexists; reflexivity.
+Qed.
+
+(* ---- soundness of the boolean checkers ------------------------------------------ *)
+
+Lemma call_eqb_spec x y : call_eqb x y = true <-> x = y.
+Proof.
+  destruct x as [[a b] p], y as [[a' b'] p']. unfold call_eqb.
+  rewrite !andb_true_iff, !Z.eqb_eq. split; [intros [[-> ->] ->]; reflexivity|intros H; inversion H; auto].
+Qed.
+
+Lemma rows_eqb_spec a b : rows_eqb a b = true <-> a = b.
+Proof. apply list_eqb_spec. apply list_eqb_spec. apply call_eqb_spec. Qed.
+
+Lemma is_nil_spec {A} (l : list A) : is_nil l = true <-> l = [].
+Proof. destruct l; cbn; split; congruence. Qed.
+
+Lemma holds_subset_sound k :
+  holds_subset k = true -> subset_dom (sc_g k) = true ->
+  exists g', sc_obs k = Ok g'
+    /\ g_samples g' = match sc_S k with
+                      | None => g_samples (sc_g k)
+                      | Some S' => filter (fun s => memZ s (g_samples (sc_g k))) S' end
+    /\ map v_id (g_variants g') = match sc_V k with
+                      | None => map v_id (g_variants (sc_g k))
+                      | Some V' => filter (fun v => memZ v (map v_id (g_variants (sc_g k)))) V' end.
+Proof.
+  unfold holds_subset. intros H Hd. rewrite Hd in H.
+  destruct (sc_obs k) as [g'|]; [|discriminate]. exists g'. split; [reflexivity|].
+  rewrite !andb_true_iff in H. destruct H as [[[H1 H2] _] _].
+  apply (list_eqb_spec Z.eqb Z.eqb_eq) in H1. apply (list_eqb_spec Z.eqb Z.eqb_eq) in H2. auto.
+Qed.
+
+(* what holds_fmt = true says about one format's observations *)
+Lemma holds_fmt_sound q fo full :
+  holds_fmt q fo = true -> fo_full fo = Ok full ->
+  let m := keep_mask (q_samples q) (g_samples full) in
+  mask m (g_samples full) <> [] ->
+  exists rd isamples irecs,
+    fo_read fo = Ok rd /\ fo_iter fo = Ok (isamples, irecs)
+    /\ g_samples rd = mask m (g_samples full)
+    /\ g_variants rd = map fst (expected q full rd)
+    /\ (expected q full rd = [] -> g_rows rd = [] /\ fo_warned fo = true)
+    /\ (expected q full rd <> [] -> g_rows rd = map (fun x : vrec => mask m (snd x)) (expected q full rd))
+    /\ isamples = mask m (g_samples full)
+    /\ map fst (take_q q irecs) = g_variants rd
+    /\ (take_q q irecs = [] \/ map snd (take_q q irecs) = g_rows rd).
+Proof.
+  intros H Hf. cbv zeta. intros Hne. unfold holds_fmt in H. rewrite Hf in H.
+  set (m := keep_mask (q_samples q) (g_samples full)) in *.
+  rewrite (is_nil_false _ Hne) in H.
+  destruct (fo_read fo) as [rd|]; [|discriminate].
+  destruct (fo_iter fo) as [[isamples irecs]|]; [|discriminate].
+  exists rd, isamples, irecs. split; [reflexivity|]. split; [reflexivity|].
+  rewrite !andb_true_iff in H. destruct H as [[[[[H1 H2] H3] H4] H5] H6].
+  apply (list_eqb_spec Z.eqb Z.eqb_eq) in H1, H4.
+  apply (list_eqb_spec variant_eqb variant_eqb_spec) in H2, H5.
+  split; [exact H1|]. split; [exact H2|].
+  split; [|split; [|split; [exact H4|split; [exact H5|]]]].
+  - intros E. rewrite E in H3. cbn [is_nil] in H3. apply andb_true_iff in H3. destruct H3 as [Ha Hb].
+    apply is_nil_spec in Ha. auto.
+  - intros E. rewrite (is_nil_false _ E) in H3. apply rows_eqb_spec in H3. exact H3.
+  - apply orb_true_iff in H6. destruct H6 as [Ha|Hb].
+    + left. apply is_nil_spec. exact Ha.
+    + right. apply rows_eqb_spec. exact Hb.
+Qed.
+
+(* the hypotheses of the theorems are satisfiable *)
+Example read_hypotheses_satisfiable :
+  wf_content c_one /\ wf_query q_noids /\ g_samples c_one <> [] /\ g_variants c_one <> []
+  /\ selected_samples c_one q_noids <> [].
+Proof.
+  repeat split; try discriminate.
+  - cbn. repeat constructor.
+  - cbn. repeat constructor. intros [].
+  - intros V H. inversion H. constructor.
+Qed.
+
+(* ---- both formats are the same function of the content --------------------------- *)
+
+(* htslib selects by overlap of [pos, pos+len(REF)-1], the PGEN reader by pos:
+   the same when the region has no start or every REF allele is one base long *)
+Definition region_comparable (c : geno) (q : query) : Prop :=
+  match q_region q with
+  | None => True
+  | Some (_, None, _) => True
+  | Some _ => Forall (fun v => v_reflen v = 1) (g_variants c)
+  end.
+
+Lemma sel_pred_same c q : region_comparable c q ->
+  forall x : vrec, In x (combine (g_variants c) (g_rows c)) ->
+  sel_pred in_region_vcf (q_region q) (q_ids q) x = sel_pred in_region_pgen (q_region q) (q_ids q) x.
+Proof.
+  unfold region_comparable, sel_pred. intros H [v r] Hin. cbn [fst].
+  destruct (q_region q) as [[[ct a] b]|]; [|reflexivity].
+  destruct a as [a'|]; [|reflexivity].
+  rewrite Forall_forall in H. unfold in_region_vcf, in_region_pgen.
+  rewrite (H v) by (eapply in_combine_l; eauto).
+  replace (v_pos v + 1 - 1) with (v_pos v) by lia. reflexivity.
+Qed.
+
+Lemma mask_In {A} m (l : list A) x : In x (mask m l) -> In x l.
+Proof.
+  revert l. induction m as [|b m IH]; intros [|a l] H; cbn in *; try tauto.
+  destruct b; [destruct H as [->|H]; [auto|right; apply IH; exact H]|right; apply IH; exact H].
+Qed.
+
+Lemma take_q_In {A} q (l : list A) x : In x (take_q q l) -> In x l.
+Proof.
+  unfold take_q, take. destruct (q_ids q); [auto|]. destruct (q_max q); [|auto].
+  intros H. rewrite <- (firstn_skipn (Z.to_nat z) l). apply in_or_app. left. exact H.
+Qed.
+
+Lemma Forall2_map_same {A B C} (R : B -> C -> Prop) (f : A -> B) (g : A -> C) l :
+  (forall x, In x l -> R (f x) (g x)) -> Forall2 R (map f l) (map g l).
+Proof.
+  induction l as [|a r IH]; intros H; cbn; constructor.
+  - apply H. left. reflexivity.
+  - apply IH. intros x Hx. apply H. right. exact Hx.
+Qed.
+
+Lemma vcf_pgen_same_content pload c q chunk :
+  pload_contract pload -> wf_content c -> wf_query q -> chunk_dom chunk ->
+  geno_domb false c = true -> g_variants c <> [] -> selected_samples c q <> [] ->
+  region_comparable c q ->
+  exists gv gp, vcf_read_q c q = Ok gv /\ pgen_read_q pload false chunk c q = Ok gp
+    /\ g_samples gv = g_samples gp /\ g_variants gv = g_variants gp
+    /\ (Forall2 (Forall2 (call_equiv 3)) (g_rows gv) (g_rows gp)
+        \/ (g_rows gv = [] /\ g_variants gv = [])).
+Proof.
+  intros Hc Hwf Hq Hch Hd Hv Hne Hreg.
+  destruct (vcf_read_spec c q Hwf Hq (or_introl Hne)) as [Ev _].
+  destruct (pgen_read_spec pload c q chunk Hwf Hq Hch Hne) as [Ep _].
+  do 2 eexists. split; [exact Ev|]. split; [exact Ep|].
+  assert (Esel : select in_region_vcf q (combine (g_variants c) (g_rows c))
+               = select in_region_pgen q (combine (g_variants c) (g_rows c))).
+  { rewrite !select_eq. apply filter_ext_in. apply sel_pred_same. exact Hreg. }
+  rewrite Esel.
+  set (m := keep_mask (q_samples q) (g_samples c)).
+  set (sel := take_q q (select in_region_pgen q (combine (g_variants c) (g_rows c)))).
+  unfold vcf_result, pgen_result. unfold selected_samples in Hne. fold m in Hne.
+  rewrite (lenZ_nonzero _ Hne). cbn [orb].
+  destruct (lenZ sel =? 0) eqn:E0; cbn [g_samples g_variants g_rows].
+  - apply Z.eqb_eq, lenZ_0_nil in E0. rewrite E0. cbn [map]. auto.
+  - split; [reflexivity|]. split; [reflexivity|]. left.
+    apply Forall2_map_same. intros [v r] Hin. cbn [snd].
+    assert (Hin0 : In (v, r) (combine (g_variants c) (g_rows c))).
+    { apply take_q_In in Hin. rewrite select_eq in Hin. apply filter_In in Hin. tauto. }
+    unfold geno_domb in Hd. rewrite !andb_true_iff in Hd. destruct Hd as [_ Hrows].
+    rewrite forallb_forall in Hrows. specialize (Hrows _ Hin0). unfold row_domb in Hrows.
+    cbn [fst snd] in Hrows. rewrite !andb_true_iff in Hrows. destruct Hrows as [[[_ Hna] _] Hcalls].
+    apply Z.leb_le in Hna. unfold to_stored. rewrite map_map.
+    apply Forall2_map_self. intros cl Hcl. apply mask_In in Hcl.
+    rewrite forallb_forall in Hcalls.
+    pose proof (call_roundtrip pload 3 (lenZ (v_alleles v)) cl Hc Hna (Hcalls _ Hcl)) as Hrt.
+    destruct cl as [[a b] p]. exact Hrt.
+Qed.
